@@ -387,7 +387,7 @@ class ClickHouseParser(parser.Parser):
         "TUPLE": lambda self: exp.Struct.from_arg_list(self._parse_function_args(alias=True)),
         "AND": lambda self: self._parse_connector_function(exp.and_),
         "OR": lambda self: self._parse_connector_function(exp.or_),
-        "XOR": lambda self: exp.xor(*self._parse_function_args(alias=False)),
+        "XOR": lambda self: self._parse_xor_function(),
     }
 
     PROPERTY_PARSERS = {
@@ -970,6 +970,13 @@ class ClickHouseParser(parser.Parser):
             self._match(TokenType.R_PAREN)
             this = exp.Apply(this=this, expression=self._parse_var(any_token=True))
         return this
+
+    def _parse_xor_function(self) -> exp.Expr | None:
+        args = self._parse_function_args(alias=False)
+        if not args:
+            self.raise_error("Expected at least one argument")
+            return None
+        return exp.xor(*args)
 
     def _parse_value(self, values: bool = True) -> exp.Tuple | None:
         value = super()._parse_value(values=values)
